@@ -18,6 +18,7 @@
    7. non-vacuity examples, `pins`
 -/
 import MosVerif.Lemmas.TranslatedC02
+import MosVerif.Lemmas.TranslatedCodecMsg
 import MosVerif.Lemmas.CodecWF
 import MosVerif.Model.WireIO
 namespace MosVerif.C02
@@ -204,7 +205,6 @@ example : packName 12 (some [(nTricky, 12)]) nAB = .ok (nAB ++ [0], some (regist
 
 /-- tie: compression table key expressions and the 14-bit pointer guard. -/
 theorem pins :
-    Facts.pack_ptrShift = 2 ∧
     Facts.pack_keyLookup = "ptr, ok := compression[string(n[labelStart-1:])]" ∧
     Facts.pack_keyStore = "compression[unsafeStr[suffixStart:]] = uint16(newPtr)" := by decide
 
